@@ -273,10 +273,12 @@ func NewCase(g *Gen, id int, forceValidate *bool) *Case {
 	if g.P.PCustomTpl > 0 && g.R.P(g.P.PCustomTpl) {
 		// a user-edited language map whose templates name two parameters, on tests that carry both: the message
 		// is a function of the issue, not of the order in which its parameters are met (judged by the repeat oracle)
-		defer installTwoParamTemplates()()
 		twoParams(n, g.R)
-		c.SkipModel = true
 		c.Shape += ":twoparams"
+		if g.R.P(50) {
+			defer installTwoParamTemplates()()
+			c.SkipModel = true // (the model formats with the shipped templates)
+		}
 	}
 	schema := Build(rec, n, validate)
 	t := TypeOf(n)
@@ -717,7 +719,11 @@ func twoParams(n *Node, r *Rng) {
 		switch {
 		case n.Kind == KString && (t.Builtin == "min" || t.Builtin == "max" || t.Builtin == "len"),
 			(n.Kind == KInt || n.Kind == KInt64 || n.Kind == KInt32) && (t.Builtin == "gt" || t.Builtin == "gte" || t.Builtin == "lt" || t.Builtin == "lte"):
-			t.OptParams = [][2]string{{"hint", fmt.Sprintf("h%d", r.Intn(100))}, {"limit", fmt.Sprint(r.Intn(50))}, {t.Builtin, fmt.Sprint(t.N)}}
+			own := fmt.Sprint(t.N)
+			if r.P(35) {
+				own = Pick(r, []string{"{{hint}}", "{{limit}} or {{hint}}", "{{value}}"}) // a value that spells another placeholder is text
+			}
+			t.OptParams = [][2]string{{"hint", fmt.Sprintf("h%d", r.Intn(100))}, {"limit", fmt.Sprint(r.Intn(50))}, {t.Builtin, own}}
 			sort.Slice(t.OptParams, func(a, b int) bool { return t.OptParams[a][0] < t.OptParams[b][0] })
 		}
 	}
